@@ -250,6 +250,9 @@ def h_roundtrip(ex):
         ex.same(len(rd), len(accepted), 'events-read==adds-accepted')
         if len(accepted) == 0:
             return
+        opts = dict(opts, _any_particles=any(expect_written(opts, s_)['particles']
+                                             for s_ in accepted),
+                    _any_triggers=any(expect_written(opts, s_)['triggers'] for s_ in accepted))
         for sr in ex.case.get('slice_ranges', (None,)):
             rd._slice_range = len(accepted) if sr is None else sr
             n_seen = 0
@@ -265,7 +268,12 @@ def check_event(ex, ev, sc, opts, nant):
     wr = expect_written(opts, sc)
     tw = ex.twin
     # particles
-    any_particles = opts['write_particles']
+    # (a file in which no event met the trigger requirement for particles holds no
+    # particle table at all: asking for particle data is then refused with ValueError)
+    any_particles = opts['write_particles'] and opts.get('_any_particles', True)
+    if opts['write_particles'] and not any_particles:
+        ex.raises(lambda: ev.get_particle_info(), (ValueError,),
+                  'no-particle-table=>ValueError')
     if any_particles:
         info = ev.get_particle_info()
         if wr['particles']:
@@ -281,7 +289,9 @@ def check_event(ex, ev, sc, opts, nant):
         else:
             ex.same(len(info), 0, 'no-particles-when-not-recorded')
     # global trigger
-    if opts['write_triggers']:
+    if opts['write_triggers'] and not opts.get('_any_triggers', True):
+        ex.raises(lambda: ev.triggered, (ValueError,), 'no-trigger-table=>ValueError')
+    elif opts['write_triggers']:
         t = ev.triggered
         if wr['triggers']:
             ex.same(bool(t), bool(sc.global_trig), 'global-trigger')
